@@ -26,6 +26,7 @@ type op struct {
 	put       bool
 	value     string
 	call, ret int64
+	sends     int // how often the request went out
 }
 
 var lastHist []op
@@ -140,6 +141,10 @@ func scenario(w *sim.World) {
 					o.value = m.ApplyFunction(S("body")).ApplyFunction(S("value")).AsString()
 				}
 				pending[cl] = o
+			case "AClient.sndReq":
+				if pending[cl] != nil {
+					pending[cl].sends++ // the request goes out (again, after the replica it was sent to was detected as failed)
+				}
 			case "AClient.rcvResp":
 				if pcName(a) == "clientLoop" && pending[cl] != nil {
 					o := pending[cl]
@@ -225,7 +230,26 @@ func postCheck(r *sim.Result) (string, string) {
 			if o.put {
 				kind = "put"
 			}
-			fmt.Fprintf(&sb, "[c%d %s %q %d..%d] ", o.client, kind, o.value, o.call, o.ret)
+			fmt.Fprintf(&sb, "[c%d %s %q %d..%d sends=%d] ", o.client, kind, o.value, o.call, o.ret, o.sends)
+		}
+		// Recorded finding: a client re-sends its request when the replica it was talking to is
+		// detected as failed; a Put that the failed primary had already replicated is applied
+		// again by the next primary (no de-duplication), over Puts acknowledged in between.
+		// It explains a history exactly when the history becomes linearizable once every
+		// re-sent Put may take effect a second time (a ghost Put that never returns, which
+		// porcupine may place after everything else: optional). Anything else is reported.
+		ghosts := append([]porcupine.Operation{}, ops...)
+		resent := 0
+		for k, o := range hist {
+			if o.put && o.sends > 1 {
+				resent++
+				for g := 1; g < o.sends && g <= 2; g++ {
+					ghosts = append(ghosts, porcupine.Operation{ClientId: 1000 + 10*k + g, Input: in{true, o.value}, Call: o.call, Output: o.value, Return: forever + int64(1000+10*k+g)})
+				}
+			}
+		}
+		if resent > 0 && porcupine.CheckOperationsTimeout(model, ghosts, harness.PorcupineTimeout()) != porcupine.Illegal {
+			return "not_linearizable_after_put_retry", fmt.Sprintf("acknowledged client operations are not linearizable, and they are once the %d Put(s) that a client re-sent after its replica failed may take effect a second time: ", resent) + sb.String() + "| " + lastDesc
 		}
 		return "not_linearizable", "acknowledged client operations are not linearizable: " + sb.String() + "| " + lastDesc
 	case porcupine.Unknown:
